@@ -265,8 +265,9 @@ func oracleC09(c *HCase) (f *ev.Failure, st hstats) {
 				out, err = csproto.Marshal(live)
 				checkOut = true
 			case "marshalto":
+				// the caller's buffer is its own business: here it is one that was used before (non-zero bytes)
 				n := fm.Size()
-				out = make([]byte, n)
+				out = bytes.Repeat([]byte{0xA5}, n)
 				err = fm.MarshalTo(out)
 				checkOut = true
 			case "unmarshal":
